@@ -75,7 +75,7 @@ func oracleC08() *Result {
 	}
 	nvar := 3
 	if opts.Tier == "thorough" {
-		nvar = 8
+		nvar = 9
 	}
 	for _, fam := range []int{7, 5} {
 		v := "7.4"
@@ -93,7 +93,11 @@ func oracleC08() *Result {
 			}
 		}
 		for _, s := range ss {
-			for k := 0; k < nvar; k++ {
+			ks := []int{8, 3, rng.Intn(8)}
+			if opts.Tier == "thorough" {
+				ks = []int{0, 1, 2, 3, 4, 5, 6, 7, 8}
+			}
+			for _, k := range ks[:nvar] {
 				for _, tv := range withTriviaKinds(rng, s.Src, fam, k) {
 					add(s.Src, tv, v, "g-cfg")
 				}
